@@ -70,7 +70,7 @@ def check(ctx):
     proved = ctx.prove("props/C08.v", ["proofs/PolyDomainFacts.v", "proofs/AlgebraSound.v", "proofs/PolyFacts.v"])
     ctx.build(["model/PolyDomain.vo", "base/Farkas.vo"])
     rng = random.Random(ctx.seed + 8)
-    n = (150 if ctx.quick else 3000) * (1 if proved else 3)
+    n = (150 if ctx.quick else 15000) * (1 if proved else 3)
     exprs, cases, jobs, seen = [], [], [], set()
     hist = {}
     for k in range(n):
